@@ -92,8 +92,10 @@ impl DeltaByteArrayDecoder {
             let prefix_length = *prefix_length as usize;
             let suffix_length = *suffix_length as usize;
 
-            if self.data_offset + suffix_length > self.data.len() {
-                return Err(ParquetError::EOF("eof decoding byte array".into()));
+            // a negative length read from the page becomes a huge `usize`: the sum must not wrap
+            match self.data_offset.checked_add(suffix_length) {
+                Some(end) if end <= self.data.len() => {}
+                _ => return Err(ParquetError::EOF("eof decoding byte array".into())),
             }
 
             self.last_value.truncate(prefix_length);
@@ -123,8 +125,10 @@ impl DeltaByteArrayDecoder {
             let prefix_length = *prefix_length as usize;
             let suffix_length = *suffix_length as usize;
 
-            if self.data_offset + suffix_length > self.data.len() {
-                return Err(ParquetError::EOF("eof decoding byte array".into()));
+            // a negative length read from the page becomes a huge `usize`: the sum must not wrap
+            match self.data_offset.checked_add(suffix_length) {
+                Some(end) if end <= self.data.len() => {}
+                _ => return Err(ParquetError::EOF("eof decoding byte array".into())),
             }
 
             self.last_value.truncate(prefix_length);
